@@ -1,3 +1,4 @@
+\* lead outside C13: after a lost /tx response the holder skips its own frame for ever (expected violation)
 SPECIFICATION Spec
 CONSTANTS
   TxHolderCheck = TRUE
@@ -9,16 +10,16 @@ CONSTANTS
   ExpiryUnlocks = TRUE
   MaxTx = 3
   MaxFaults = 1
-  MaxHandles = 2
+  MaxHandles = 1
   MaxExpire = 1
-  MaxPChange = 1
-  MaxRogue = 1
-  MaxBlock = 1
+  MaxPChange = 0
+  MaxRogue = 0
+  MaxBlock = 0
   MaxCkpt = 1
   MaxIdle = 1
   MaxSteps = 0
   Eager = FALSE
   Emit = "none"
 VIEW view
-INVARIANTS TypeOK Exclusive HaltPins StartsAtLockPos AckedIsOnPrimary ReachesThird OnlyFromHolder SameIdSameLock WritableAgain FormerCannotPublish NoWedge
+INVARIANTS NoStuck
 CHECK_DEADLOCK FALSE
